@@ -262,23 +262,82 @@ func (dm *DocumentManager) GetContent(uri string) (string, bool) {
 	return doc.Content, true
 }
 
-// splitLines splits content into lines, preserving line endings
-func splitLines(content string) []string {
-	if content == "" {
-		return []string{""}
+// lineTerminatorLen returns the length of the line terminator that starts at
+// content[i], or 0 if there is none. The protocol's line terminators are
+// "\n", "\r\n" and "\r".
+func lineTerminatorLen(content string, i int) int {
+	switch content[i] {
+	case '\n':
+		return 1
+	case '\r':
+		if i+1 < len(content) && content[i+1] == '\n' {
+			return 2
+		}
+		return 1
 	}
-	lines := strings.Split(content, "\n")
-	return lines
+	return 0
 }
 
-// applyChange applies an incremental change to the document
+// splitLines splits content into its lines, without their terminators
+// ("\n", "\r\n" or "\r"). The text after the last terminator is the last
+// line, so the result is never empty.
+func splitLines(content string) []string {
+	lines := make([]string, 0, strings.Count(content, "\n")+1)
+	start := 0
+	for i := 0; i < len(content); {
+		n := lineTerminatorLen(content, i)
+		if n == 0 {
+			i++
+			continue
+		}
+		lines = append(lines, content[start:i])
+		i += n
+		start = i
+	}
+	return append(lines, content[start:])
+}
+
+// offsetOfPosition converts a Position to a byte offset in content. Lines end
+// at "\n", "\r\n" or "\r"; characters are counted in UTF-16 code units.
+// Positions outside the document clamp: a negative line is the start of the
+// document, a line past the last line is the end of the document, a negative
+// character is the start of its line and a character past the end of a line
+// is the end of that line, before its terminator.
+func offsetOfPosition(content string, pos Position) int {
+	if pos.Line < 0 {
+		return 0
+	}
+	// Find the start of line pos.Line
+	i := 0
+	for line := 0; line < pos.Line; {
+		if i >= len(content) {
+			return len(content) // past the last line
+		}
+		n := lineTerminatorLen(content, i)
+		if n == 0 {
+			i++
+			continue
+		}
+		i += n
+		line++
+	}
+	end := i
+	for end < len(content) && lineTerminatorLen(content, end) == 0 {
+		end++
+	}
+	return i + utf16ColumnToByteOffset(content[i:end], pos.Character)
+}
+
+// applyChange applies an incremental change to the document. Offsets are
+// computed on content itself, whose line terminators may be one or two bytes
+// long; lines (the cached split of content) is not needed for that.
 func applyChange(content string, lines []string, change TextDocumentContentChangeEvent) string {
 	if change.Range == nil {
 		return change.Text
 	}
 
-	startOffset := positionToOffset(lines, change.Range.Start)
-	endOffset := positionToOffset(lines, change.Range.End)
+	startOffset := offsetOfPosition(content, change.Range.Start)
+	endOffset := offsetOfPosition(content, change.Range.End)
 
 	// Positions outside the document clamp to its bounds
 	if startOffset > len(content) {
@@ -300,7 +359,9 @@ func applyChange(content string, lines []string, change TextDocumentContentChang
 	return result.String()
 }
 
-// positionToOffset converts a Position to a byte offset.
+// positionToOffset converts a Position to a byte offset in the text formed by
+// joining lines with one-byte line terminators (applyChange uses
+// offsetOfPosition, which also handles "\r\n").
 //
 // Positions outside the document clamp: a negative line is the start of the
 // document, a line past the last line is the end of the document, a negative
